@@ -226,3 +226,7 @@ extend("C17", FACADE2 % "`U | V` and `U & V`" + " and that `|=` / `&=` install t
 extend("C18", FACADE2 % "`U + a`, `U - a`, `U * s`, `s * U`, `U / s`" + " with every knot mapped affinely.")
 extend("C03", FACADE2 % "copy, deepcopy and every non-in-place operator (+, -, *, /, |, &)")
 ENGINE_V += ["C17"]
+extend("C17", "The MULTIPLICITY RULE is proved by engine V for vectors of every length and degree: at the point where ImmutableKnotVector.__or__ / __and__ assemble "
+              "their result, every distinct knot x carries max(mult_U(x) + P - p, mult_V(x) + P - q) (0 for a vector that does not contain x; lower continuity order wins) "
+              "resp. min(mult_U(x), mult_V(x)) over the common knots (loop invariants over both operand scans, ghost witness / position functions, assumed contracts of "
+              ".knots, mult() and __get_unique: A10). The assembly of the vector from (knot, multiplicity) pairs, the sort and the constructor call are checked per joint shape by engine S.")
